@@ -62,7 +62,12 @@ public:
     void Run(u64 cycles) {
         idle = false;
         for (u64 i = 0; i < cycles; ++i) {
-            if (idle) {
+            // An interrupt latched by the previous tick has to be seen by this cycle, not after the fast-forward
+            bool interrupt_latched = vinterrupt_pending;
+            for (const auto& pending : interrupt_pending) {
+                interrupt_latched = interrupt_latched || pending;
+            }
+            if (idle && !interrupt_latched) {
                 u64 skipped = core_timing.Skip(cycles - i - 1);
                 i += skipped;
 
